@@ -1,3 +1,4 @@
+import Cirbo.Proofs.DenormTotal
 import Cirbo.Proofs.Denorm
 import Cirbo.Proofs.DbLookupC
 /-!
@@ -11,7 +12,8 @@ import Cirbo.Proofs.DbLookupC
 -- OBLIGATION: c17_dontcare_completions_exact
 -- OBLIGATION: c17_dontcare_lookup
 -- OBLIGATION: c17_dontcare_lookup_computes
--- PARTIAL: proved (for every table, any number of outputs and rows): normalisation followed by denormalisation is the identity on the outputs' truth tables (negation, stable sort, duplicate removal and their inverses); and at circuit level: denormalize(circuit) leaves the inputs alone and puts the denormalised values on the outputs (reused / fresh not_<o> gates), so an entry whose stored circuit computes the normalised table yields a circuit computing the requested table in the requested output order (c17_lookup_entry_correct). The quantifier over the 2 x 349,724 shipped entries ('the stored circuit computes its key') is a finite table: it is discharged by executing the code's and the Lean model's decoder + evaluator + well-formedness checker over the entries (quick: every entry with <= 2 inputs plus a seeded sample; thorough: all), not by a kernel proof. The lookup of a table with don't-cares is proved too, for every pattern of don't-cares and any database lookup of full tables: the tables looked up are exactly the full tables of the model's shape that agree with its defined entries (c17_dontcare_completions_exact), the circuit returned is the stored circuit of one of them, no stored circuit of any of them is smaller, and nothing is returned only when none of them is stored (c17_dontcare_lookup); given that the lookup of full tables returns only circuits computing the table asked for, the circuit returned computes a table with every defined entry (c17_dontcare_lookup_computes). The order of the tables looked up and the circuit chosen are compared with get_by_raw_truth_table_model on the shipped databases by the correspondence. That denormalize never raises on a matching entry is checked on the real databases by the search and the correspondence.
+-- OBLIGATION: c17_denormalize_returns
+-- PARTIAL: proved (for every table, any number of outputs and rows): normalisation followed by denormalisation is the identity on the outputs' truth tables (negation, stable sort, duplicate removal and their inverses); and at circuit level: denormalize(circuit) leaves the inputs alone and puts the denormalised values on the outputs (reused / fresh not_<o> gates), so an entry whose stored circuit computes the normalised table yields a circuit computing the requested table in the requested output order (c17_lookup_entry_correct). The quantifier over the 2 x 349,724 shipped entries ('the stored circuit computes its key') is a finite table: it is discharged by executing the code's and the Lean model's decoder + evaluator + well-formedness checker over the entries (quick: every entry with <= 2 inputs plus a seeded sample; thorough: all), not by a kernel proof. The lookup of a table with don't-cares is proved too, for every pattern of don't-cares and any database lookup of full tables: the tables looked up are exactly the full tables of the model's shape that agree with its defined entries (c17_dontcare_completions_exact), the circuit returned is the stored circuit of one of them, no stored circuit of any of them is smaller, and nothing is returned only when none of them is stored (c17_dontcare_lookup); given that the lookup of full tables returns only circuits computing the table asked for, the circuit returned computes a table with every defined entry (c17_dontcare_lookup_computes). The order of the tables looked up and the circuit chosen are compared with get_by_raw_truth_table_model on the shipped databases by the correspondence. That denormalize never raises on a matching entry is a theorem (c17_denormalize_returns).
 -/
 namespace Cirbo
 open Norm
@@ -128,5 +130,17 @@ example : (normalize [[false, true, true, false], [true, false, false, true], [f
 #print axioms c17_dontcare_completions_exact
 #print axioms c17_dontcare_lookup
 #print axioms c17_dontcare_lookup_computes
+
+/-- **denormalisation never raises on a matching entry** and returns the requested table: `tt` the requested table,
+`info` its normalisation, `c` a stored circuit with as many outputs as the key has rows -/
+theorem c17_denormalize_returns {tt : List Row} {info : Info} {c : Circuit} (hnorm : normalize tt = .ok info)
+    (hw : WFS c) (hn : NotOK c) (hout : c.outputs.length = info.table.length) :
+    ∃ c', denormalizeCircuit info c = .ok c' ∧ WFS c' ∧ c'.inputs = c.inputs ∧
+      c'.outputs.length = tt.length ∧
+      ∀ j, (∀ r ∈ tt, j < r.length) → ∀ b v, IsValB c b v → c.outputs.map v = col j info.table →
+        ∃ v', IsValB c' b v' ∧ c'.outputs.map v' = col j tt :=
+  dt_lookup_entry_total_correct hnorm hw hn hout
+
+#print axioms c17_denormalize_returns
 
 end Cirbo
